@@ -100,6 +100,17 @@ def binop(ex, st, op, a, b, node=None):
         else:
             yield st, V(ta, a.t if n == 1 else z3.Concat(*([a.t] * n)))
         return
+    if isinstance(op, ast.Add) and ((ta in ("str", "bytes", "list", "tuple") and tb == "py")
+                                    or (tb in ("str", "bytes", "list", "tuple") and ta == "py")):
+        kind = ta if tb == "py" else tb
+        dyn = b if tb == "py" else a
+        for st1, r in ex.need(st, S.RECOG[kind](dyn.t), "TypeError", "concat"):
+            if r is not None:
+                yield st1, r
+                continue
+            dv = S.unbox(dyn.t, kind)
+            yield st1, V(kind, z3.Concat(a.t, dv.t) if tb == "py" else z3.Concat(dv.t, b.t))
+        return
     if isinstance(op, ast.Mod) and ta == "str":
         raise _unsupported("%-formatting")
     # ---- set algebra (Seq-backed sets) : only what the code uses
